@@ -68,6 +68,11 @@ fn payload_set_with(rng: &mut Rng, format: TileFormat, c: Comp, huge: bool) -> T
 		b"highly compressible ".iter().cycle().take(100 * 1024).cloned().collect(),
 		rng.bytes(70 * 1024),
 		vec![0u8; 3000],
+		// payloads that are themselves compressed streams / start with a codec's magic bytes (tiles gzipped before
+		// packing but declared otherwise, .gz files carried as BIN tiles): they are data like any other
+		comp::compress(b"an inner gzip stream: payload bytes that happen to be compressed already ".repeat(20).as_slice(), Comp::Gzip),
+		comp::compress(b"an inner brotli stream ".repeat(30).as_slice(), Comp::Brotli),
+		[&[0x1fu8, 0x8b, 0x08, 0x00][..], &rng.bytes(40)[..]].concat(),
 	];
 	if huge {
 		for n in [(16usize << 20) + 1, 33 << 20] {
@@ -77,17 +82,18 @@ fn payload_set_with(rng: &mut Rng, format: TileFormat, c: Comp, huge: bool) -> T
 			raw.push(v);
 		}
 	}
-	for _ in 0..rng.range(1, 5) {
+	for _ in 0..rng.range(1, 4) {
 		let n = *rng.pick(&[2usize, 17, 999, 1000, 1001, 5000]);
 		raw.push(if rng.bool() { rng.bytes(n) } else { b"ab".iter().cycle().take(n).cloned().collect() });
 	}
 	let mut tiles = BTreeMap::new();
 	for (i, r) in raw.iter().enumerate() {
-		let (x, y) = (x0 + (i as u32 % 3), y0 + (i as u32 / 3));
+		let (x, y) = (x0 + (i as u32 % 4), y0 + (i as u32 / 4));
 		// the coordinate is embedded so that a relocated tile is visible
 		let mut p = format!("T:{z}/{x}/{y};").into_bytes();
 		p.extend_from_slice(r);
-		let p = if i == 0 { vec![r[0]] } else { p };
+		// the one-byte payload and the payloads that look like compressed streams are stored verbatim
+		let p = if i == 0 { vec![r[0]] } else if (6..9).contains(&i) { r.clone() } else { p };
 		tiles.insert((z, x, y), comp::compress(&p, c));
 	}
 	// a second level with one tile
@@ -95,7 +101,7 @@ fn payload_set_with(rng: &mut Rng, format: TileFormat, c: Comp, huge: bool) -> T
 	// a tile whose decoded payload is empty (e.g. an empty vector tile); only representable when the
 	// stored form is non-empty, i.e. for compressed sources
 	if c != Comp::None {
-		tiles.insert((z, x0 + 3, y0), comp::compress(b"", c));
+		tiles.insert((z, x0 + 3, y0 + 3), comp::compress(b"", c));
 	}
 	TileSet { format, comp: c, tiles, tilejson: "{\"tilejson\":\"3.0.0\",\"name\":\"c04 \\u00e4\",\"attribution\":\"x\",\"vector_layers\":[{\"id\":\"a\",\"fields\":{\"k\":\"String\"}}]}".into(), shape: format!("payload classes at z{z}"), really_compressed: true }
 }
@@ -169,6 +175,25 @@ fn run_case(cx: &CaseCtx, rep: &mut Report) {
 	let out = container_path(&dir, target);
 	if target == "directory" {
 		let _ = std::fs::create_dir_all(&out);
+	}
+	// the target may already exist: an older conversion of the same tiles with longer payloads (same file names)
+	if !huge && rng.chance(0.3) {
+		let mut old = ts.clone();
+		old.comp = out_comp;
+		old.tiles = ts
+			.tiles
+			.iter()
+			.map(|(k, v)| {
+				let mut raw = comp::decompress(v, src_comp).unwrap_or_default();
+				raw.extend_from_slice(b" -- stale tail of an older, longer version -- ");
+				raw.extend(std::iter::repeat(b'#').take(300));
+				(model::transform(k, flip, swap), comp::compress(&raw, out_comp))
+			})
+			.collect();
+		let mut m = MemSource::new(&old);
+		if guard::block_on(write_to_filename(&mut m, out.to_str().unwrap())).is_ok() {
+			rep.count(&format!("conversions_into_an_existing_target_{target}"), 1);
+		}
 	}
 	let cp = TilesConverterParameters::new(opt.map(|c| c.to_core()), None, force, flip, swap);
 	rep.eval();
